@@ -27,6 +27,11 @@ pub struct Case {
     pub renumber_items: bool,
     pub renumber_crates: bool,
     pub seed: u64,
+    /// how item ids are renumbered: 0 = injectively into random 31-bit numbers, 1 = a random
+    /// permutation of 0..n in every crate (so ids of different crates collide all the time),
+    /// 2 = order reversed (max + min - id), 3 = shifted by a constant
+    #[serde(default)]
+    pub numbering: u8,
 }
 
 fn fixtures() -> String {
@@ -83,20 +88,39 @@ fn transform(name: &str, case: &Case) -> anyhow::Result<(Crate, usize)> {
     if case.renumber_items {
         let mut sorted: Vec<u32> = all_ids(&c)?.into_iter().collect();
         sorted.sort_unstable();
-        let mut used = HashSet::new();
         let mut map = HashMap::new();
-        for i in sorted {
-            loop {
-                let n = (rng.next() >> 33) as u32;
-                if used.insert(n) {
-                    if n != i {
-                        moved += 1;
+        match case.numbering % 4 {
+            0 => {
+                let mut used = HashSet::new();
+                for i in sorted {
+                    loop {
+                        let n = (rng.next() >> 33) as u32;
+                        if used.insert(n) {
+                            map.insert(i, n);
+                            break;
+                        }
                     }
-                    map.insert(i, n);
-                    break;
                 }
             }
+            1 => {
+                // Fisher-Yates over 0..n
+                let mut perm: Vec<u32> = (0..sorted.len() as u32).collect();
+                for k in (1..perm.len()).rev() {
+                    let j = (rng.next() % (k as u64 + 1)) as usize;
+                    perm.swap(k, j);
+                }
+                map.extend(sorted.iter().copied().zip(perm));
+            }
+            2 => {
+                let (lo, hi) = (*sorted.first().unwrap_or(&0), *sorted.last().unwrap_or(&0));
+                map.extend(sorted.iter().map(|i| (*i, hi - (*i - lo))));
+            }
+            _ => {
+                let shift = 1 + (rng.next() % 1_000_000) as u32;
+                map.extend(sorted.iter().map(|i| (*i, *i + shift)));
+            }
         }
+        moved += map.iter().filter(|(a, b)| a != b).count();
         remap::MAP.with(|m| *m.borrow_mut() = map);
         c = serde_json::from_value(serde_json::to_value(remap::W(&c))?)?;
     }
@@ -291,7 +315,9 @@ fn agrees_with_traced(reg: &Value) -> Result<usize, String> {
 }
 
 pub fn strategy() -> BoxedStrategy<Case> {
-    (0..EXAMPLES.len(), prop::bool::weighted(0.85), any::<bool>(), any::<u64>()).prop_map(|(example, renumber_items, renumber_crates, seed)| Case { example, renumber_items, renumber_crates, seed }).boxed()
+    (0..EXAMPLES.len(), prop::bool::weighted(0.85), any::<bool>(), any::<u64>(), prop_oneof![2 => Just(0u8), 4 => Just(1u8), 1 => Just(2u8), 1 => Just(3u8)])
+        .prop_map(|(example, renumber_items, renumber_crates, seed, numbering)| Case { example, renumber_items, renumber_crates, seed, numbering })
+        .boxed()
 }
 
 fn main() {
@@ -301,7 +327,7 @@ fn main() {
     vkit::MAX_SHRINK_ITERS.store(24, std::sync::atomic::Ordering::Relaxed);
     let stats = Stats::new();
     let orders: std::sync::Mutex<Vec<HashSet<Vec<String>>>> = std::sync::Mutex::new(vec![HashSet::new(); EXAMPLES.len()]);
-    let identity = |example| Case { example, renumber_items: false, renumber_crates: false, seed: 0 };
+    let identity = |example| Case { example, renumber_items: false, renumber_crates: false, seed: 0, numbering: 0 };
     let bases = || {
         BASES.get_or_init(|| {
             std::thread::scope(|s| {
@@ -330,7 +356,7 @@ fn main() {
         let reordered = out.load_order != base.load_order;
         let nt = reordered || out.moved >= 100;
         orders.lock().unwrap()[c.example].insert(out.load_order.clone());
-        stats.case(c, nt, &[&format!("description:{}", EXAMPLES[c.example]), if reordered { "load-order:changed" } else { "load-order:same" }, if c.renumber_items { "items:renumbered" } else { "items:as-is" }, if c.renumber_crates { "crates:renumbered" } else { "crates:as-is" }]);
+        stats.case(c, nt, &[&format!("description:{}", EXAMPLES[c.example]), if reordered { "load-order:changed" } else { "load-order:same" }, if c.renumber_items { "items:renumbered" } else { "items:as-is" }, if c.renumber_crates { "crates:renumbered" } else { "crates:as-is" }, ["numbering:sparse-random", "numbering:dense-permutation(colliding-across-crates)", "numbering:reversed", "numbering:shifted"][(c.numbering % 4) as usize]]);
         if nt && stats.wants_sample() {
             stats.sample(|| serde_json::json!({"case": c, "ids_moved": out.moved, "load_order": out.load_order}));
         }
@@ -385,7 +411,7 @@ fn main() {
                 Report {
                     prop,
                     tier,
-                    rule: "the 7 bundled descriptions x transformations {consistent random renumbering of every item id (through a serde adapter that intercepts the newtype Id wherever it occurs, map keys included), renumbering of external crate ids, fresh hash order of all maps by re-deserialisation}, applied to the root crate and to every dependent crate the builder loads; non-trivial = the transformation changed the load order of dependent crates or moved >= 100 ids; distinct = distinct (description, transformation); clauses closed / variant order / traced schema are evaluated on each untransformed registry and carried to the transformed ones by the equality",
+                    rule: "the 7 bundled descriptions x transformations {consistent renumbering of every item id - injectively into random numbers, as a random permutation of 0..n per crate (ids of different crates then collide constantly), order-reversing, or shifted - (through a serde adapter that intercepts the newtype Id wherever it occurs, map keys included), renumbering of external crate ids, fresh hash order of all maps by re-deserialisation}, applied to the root crate and to every dependent crate the builder loads; non-trivial = the transformation changed the load order of dependent crates or moved >= 100 ids; distinct = distinct (description, transformation); clauses closed / variant order / traced schema are evaluated on each untransformed registry and carried to the transformed ones by the equality",
                     assumptions: vec![
                         "declaration order is read from the description's own variant list (rustdoc keeps source order); enums whose name is ambiguous across crates or that use serde rename are checked for contiguity only".into(),
                         "the traced schema is serde-reflection's registry of the shipped protocol types, compared as JSON with the CLI's containers of the same name".into(),
